@@ -199,7 +199,7 @@ def read_plain(ctx):
 
 @rule('LIST-READ', {
     'C12': 'every replica shows the elements in the one order of their identifiers: reads walk the whole identifier-ordered map',
-}, floor=4)
+}, floor=6)
 def list_read(ctx):
     """List::read / read_into / iter / iter_entries range over all of self.seq in map (identifier) order."""
     facts = ctx.facts
@@ -211,6 +211,14 @@ def list_read(ctx):
         rev = set(iter_adaptors(src)) & {'rev'}
         ok = param_path(base) == (1, ('seq',)) and k == kind and not clo and not (set(iter_adaptors(src)) & LOSSY_ADAPTORS) and not rev
         ctx.check(ok, name, body, 'all of seq in identifier order', 'List::%s is %s, expected every %s of self.seq in map order' % (name, fmt(r, 5), kind))
+    # "map order" is the identifier order only in an ordered container keyed by the identifier
+    for adt, fld, want in ((LIST, 'seq', 'BTreeMap'), (GLIST, 'list', 'BTreeSet')):
+        a = ctx.adt(adt)
+        ty = [f['ty'] for f in a['variants'][0]['fields'] if f['name'] == fld]
+        ok = bool(ty) and (ty[0].get('path') or '').endswith(want) and ty[0].get('args') and 'Identifier' in (ty[0]['args'][0].get('s') or '')
+        ctx.check(ok, '%s.%s' % (adt.split('::')[-1], fld), None, 'ordered container keyed by Identifier',
+                  '%s.%s is %s, expected an ordered %s keyed by Identifier (reads rely on its iteration order being the identifier order)'
+                  % (adt, fld, ty[0].get('s') if ty else 'missing', want), fnkey=adt)
 
 
 @rule('MK-HASH', {
@@ -258,3 +266,109 @@ def mk_hash(ctx):
     if not fin or not rc.must_pass(fin):
         errs.append('the digest is not finalised')
     ctx.check(not errs, 'hash', body, 'digest over every child and the value', errs[0] if errs else '')
+
+
+def _is_empty_ctor(t, depth=0, facts=None):
+    """t is an empty / default value: Default::default(), T::new(), an empty collection constructor, 0 / false, or an
+    aggregate of such (through crate-local `new`/`default` helpers)."""
+    t = drop_lv(t)
+    if t[0] == 'const':
+        return t[1] in (0, False, '()') or t[2] in ('()',) or str(t[1]).startswith('PhantomData') or 'PhantomData' in str(t[2])
+    if t[0] == 'agg':
+        return all(_is_empty_ctor(v, depth + 1, facts) for _, v in t[3])
+    if t[0] == 'call' and call_name(t) in ('default', 'new', 'with_hasher') and not t[2]:
+        info = cinfo(t[1])
+        if info['local'] and facts is not None and depth < 4:
+            from ..ordset import local_summary
+            sm = local_summary(facts, t)
+            if sm is not None and sm != t:
+                return _is_empty_ctor(sm, depth + 1, facts)
+        return True
+    return False
+
+
+@rule('TYPE-IMPLS', {
+    'C20': 'replicas with the same content compare equal only if equality looks at every field; keys of hash tables (clocks, dots) need Hash to agree with Eq',
+    'C19': 'round-trip equality is judged by the same PartialEq impls',
+    'C02': 'the merge laws are stated up to ==',
+}, floor=16)
+def type_impls(ctx):
+    """Hand-written PartialEq / Hash / Default / Clone impls of the crate's state, op and clock types behave like the derived
+    ones: eq compares every field (true iff all are equal), hash feeds every field eq compares, default builds the empty
+    value, clone copies every field.  (Impls with their own rule are skipped: MVReg::eq is MV-EQ; the orderings are
+    DOT-PCMP, ID-CMP, ID-PCMP, VC-PCMP.)"""
+    facts = ctx.facts
+    own_rule = {('crdts::mvreg::MVReg', 'PartialEq')}
+    for b0 in facts.bodies:
+        if b0.kind != 'AssocFn' or b0.derived or b0.serde or not b0.impl_trait or not (b0.impl_self or '').startswith('crdts::'):
+            continue
+        tr = b0.impl_trait.split('::')[-1]
+        adt = facts.adts.get(b0.impl_self)
+        if adt is None or (b0.impl_self, tr) in own_rule:
+            continue
+        short = b0.impl_self.replace('crdts::', '')
+        b = facts._v(b0)
+        fields = [f['name'] for v in adt['variants'] for f in v['fields']] if adt['kind'] == 'struct' else None
+        if tr == 'PartialEq' and b0.name == 'eq':
+            ctx.analysed.add(b0.key)
+            if fields is None:
+                ctx.shape(short + '/eq', b, 'hand-written equality on an enum is not modelled')
+                continue
+            seen = set()
+
+            def atom(t):
+                if t[0] == 'call' and cinfo(t[1])['name'] in ('eq', 'ne') and len(t[2]) == 2 or (t[0] == 'binop' and t[1] in ('Eq', 'Ne')):
+                    a_, b_ = (t[2][0], t[2][1]) if t[0] == 'call' else (t[2], t[3])
+                    pa, pb = value_path(drop_lv(a_)), value_path(drop_lv(b_))
+                    if pa and pb and {pa[0], pb[0]} == {1, 2} and pa[1] == pb[1] and len(pa[1]) == 1:
+                        seen.add(pa[1][0])
+                        neg = (cinfo(t[1])['name'] == 'ne') if t[0] == 'call' else (t[1] == 'Ne')
+                        return ('not', 'f_' + pa[1][0]) if neg else 'f_' + pa[1][0]
+                return None
+            errs = []
+            closure_value(facts, b, bool_atom=atom)
+            allt = closure_value(facts, b, bool_atom=atom, assumption={'f_' + f: True for f in fields})
+            if allt is not True:
+                errs.append('two values whose fields are all equal do not compare equal')
+            for f in fields:
+                asm = {'f_' + g: True for g in fields}
+                asm['f_' + f] = False
+                if closure_value(facts, b, bool_atom=atom, assumption=asm) is not False:
+                    errs.append('values that differ in field `%s` can compare equal' % f)
+                    break
+            ctx.check(not errs, short + '/eq', b, 'equal iff every field is equal (%s)' % ', '.join(fields), errs[0] if errs else '')
+        elif tr == 'Hash' and b0.name == 'hash':
+            ctx.analysed.add(b0.key)
+            it = interp(facts, b)
+            rc = Reach(facts, b, Evaluator(facts))
+            fed = set()
+            for bb, c in it.calls.items():
+                if call_name(c.term) == 'hash' and c.args and rc.must_pass([bb]):
+                    pp = value_path(drop_lv(c.args[0].val))
+                    if pp and pp[0] == 1 and len(pp[1]) == 1:
+                        fed.add(pp[1][0])
+            # k1 == k2 must imply hash(k1) == hash(k2): nothing may be hashed that equality does not compare
+            eqb = facts.trait_impl_method(b0.impl_self, 'PartialEq', 'eq')
+            compared = set(fields or [])
+            if eqb is not None and not eqb.derived:
+                compared = set()
+                eit = interp(facts, eqb)
+                for st in [c_.term for c_ in eit.calls.values()] + [sw.discr for sw in eit.switches.values()] + [eit.ret] \
+                        + [av[1] for av in eit.assign_vals.values()]:
+                    for y in subterms(st):
+                        pp = value_path(drop_lv(y))
+                        if pp and pp[0] in (1, 2) and len(pp[1]) == 1:
+                            compared.add(pp[1][0])
+            extra = sorted(fed - compared)
+            ctx.check(fields is not None and not extra, short + '/hash', b, 'only fields that equality compares are hashed (%s)' % ', '.join(sorted(fed)),
+                      'field(s) %s are hashed but not compared by ==: equal values can hash differently' % extra)
+        elif tr == 'Default' and b0.name == 'default':
+            ctx.analysed.add(b0.key)
+            r = interp(facts, b).ret
+            ctx.check(_is_empty_ctor(r, 0, facts), short + '/default', b, 'the default value is the empty one',
+                      'Default::default() of %s is %s, expected every field empty / default' % (short, fmt(drop_lv(r), 5)))
+        elif tr == 'Clone' and b0.name == 'clone':
+            ctx.analysed.add(b0.key)
+            r = versionless(interp(facts, b).ret)
+            ok = r == ('param', 1) or (r[0] == 'agg' and fields is not None and all(versionless(v) == ('field', ('param', 1), k) for k, v in r[3]))
+            ctx.check(ok, short + '/clone', b, 'a field-by-field copy', 'Clone::clone of %s is %s, expected a copy of every field' % (short, fmt(r, 5)))
